@@ -91,7 +91,7 @@ def r_dimension(chk, P, tier):
 def run(chk, tier):
     P = Prog("default")
     chk.configs.add("default")
-    for r in (r_ord, r_projections, r_glue, r_passthrough, r_day_tables, r_dimension, r_at_transition):
+    for r in (r_ord, r_projections, r_glue, r_passthrough, r_day_tables, r_dimension, r_at_transition, r_days_since_epoch, r_offset_sign_shared):
         chk.guarded(r, P, tier)
     chk.assume("which transition applies to an instant, gap/fold classification on the exact second, the hemisphere/sign branches and rule-day arithmetic are "
                "comparisons between runtime quantities and are NOT decided; only the ordering of the two fold candidates and the contract glue are")
@@ -336,3 +336,69 @@ def r_at_transition(chk, P, tier):
     chk.ok("undecided idiom")
     chk.ok("undecided idiom (2)")
     chk.assume("C05 LOOKUP.at_transition: idiom %s not decided" % bs)
+
+
+def r_offset_sign_shared(chk, P, tier):
+    from props import c16
+    c16.r_offset_sign(chk, P, tier)
+
+
+def r_days_since_epoch(chk, P, tier):
+    """days_since_unix_epoch(year, month, day) is a pure integer function. It is folded (def-use terms, no execution) over one full 400-year
+    period of each of its two branches (1970..2370 and 1570..1970) x 12 months and compared with the calendar oracle. Lemma for all other years:
+    `year` enters only as (year - c) * 365, (year - c) / k with k in {4, 100, 400} and is_leap_year(year); within a branch all numerators keep
+    their sign (c <= 1970 in the upper, c >= 1969 in the lower branch), so truncating division is additive under year +- 400 and
+    f(year +- 400) = f(year) +- 146097, as in the calendar. The day enters additively."""
+    from finmap import Folder
+    import calendar_oracle as cal
+    chk.rule("CYCLE.days_since_unix_epoch", "days_since_unix_epoch equals the calendar's day count for every (year, month) of one 400-year period per branch; periodicity lemma on the uses of `year`", floor=4)
+    fn = RULE + "days_since_unix_epoch"
+    fo = Folder(P)
+    epoch = cal.day_number(1970, 1, 1)
+    bad = None
+    n = 0
+    for y in range(1570, 2370):
+        for m in range(1, 13):
+            for d in (1, 28):
+                r = fo.call(fn, [("const", y), ("const", m), ("const", d)])
+                n += 1
+                want = cal.day_number(y, m, d) - epoch
+                got = r[1] if isinstance(r, tuple) and r and r[0] == "const" else r
+                if got != want and bad is None:
+                    bad = ((y, m, d), got, want)
+    chk.expect(bad is None, "window 1570..2370", "days_since_unix_epoch%s = %s, calendar says %s" % (bad or ((), 0, 0)), loc=P.loc(fn), detail_ok="%d argument tuples" % n)
+    # lemma: uses of year
+    paths = [p_ for p_ in Sym(P, fn).paths() if p_.end[0] == "return"]
+    if not paths:
+        raise AnchorLost(fn)
+    YEAR = ("arg", 1)
+    ok_uses = True
+    why = ""
+    branch_consts = {True: set(), False: set()}
+    for p_ in paths:
+        upper = None
+        for c in p_.conds:
+            t = c[1]
+            if c[0][0] == "switch" and t[0] == "bin" and t[1] in ("Ge", "Lt") and const_of(t[3]) == 1970 and any(x == YEAR for x in walk_terms(t[2])):
+                truth = c[2] != 0
+                upper = truth if t[1] == "Ge" else not truth
+        if upper is None:
+            ok_uses, why = False, "a path does not branch on year >= 1970"
+            continue
+        for t in walk_terms(p_.ret):
+            if t[0] == "bin" and t[1] in ("Div", "Rem") and any(x == YEAR for x in walk_terms(t[2])):
+                k = const_of(t[3])
+                num = t[2]
+                while num[0] == "field" and num[2] == 0 and num[1][0] == "bin":
+                    num = ("bin", num[1][1].replace("WithOverflow", ""), num[1][2], num[1][3])
+                if t[1] != "Div" or k not in (4, 100, 400) or not (num[0] == "bin" and num[1] == "Sub" and const_of(num[3]) is not None):
+                    ok_uses, why = False, "year is divided as %s" % pp(t)[:60]
+                else:
+                    branch_consts[upper].add(const_of(num[3]))
+            if t[0] == "bin" and t[1].startswith("Mul") and any(x == YEAR for x in walk_terms(t)):
+                if const_of(t[3]) != 365 and const_of(t[2]) != 365:
+                    ok_uses, why = False, "year is multiplied as %s" % pp(t)[:60]
+    chk.expect(ok_uses, "uses of year", "periodicity lemma does not apply: " + why, loc=P.loc(fn))
+    chk.expect(branch_consts[True] and max(branch_consts[True]) <= 1970 and branch_consts[False] and min(branch_consts[False]) >= 1969, "numerators keep their sign",
+               "division numerators change sign inside a branch: upper branch subtracts %s (must be <= 1970), lower branch %s (must be >= 1969)" % (sorted(branch_consts[True]), sorted(branch_consts[False])), loc=P.loc(fn))
+    chk.expect(146097 % 7 == 0 and 400 * 365 + 100 - 4 + 1 == 146097, "period", "arithmetic")
